@@ -227,6 +227,7 @@ def run(ctx: Ctx) -> None:
         cache_and_concurrency(ctx, td, files)
         hash_seeds(ctx, td, files)
         overlapping_arguments(ctx, td)
+        configured_cache(ctx, td)
     finally:
         shutil.rmtree(td, ignore_errors=True)
     ctx.resolve_broken({"translate is_ignored_via_amend (iteration over the set settings.ignore)": "history:", "amend_order_irrelevant": "history:", "amend_translated_is_the_model": "history:",
@@ -370,3 +371,102 @@ def cache_and_concurrency(ctx: Ctx, td: str, files: list[str]) -> None:
     if any(o[1] != cold or o[0] != rc for o in outs):
         bad = next(o for o in outs if o[1] != cold or o[0] != rc)
         ctx.report("cache:concurrent", "four concurrent runs sharing one cache directory do not all print the same report", {"expected": cold[-400:], "got": bad[1][-400:], "stderr": bad[2][-400:]})
+
+
+CACHE_APP = '''\
+from shapes import Shape, greet
+
+square = Shape().unit()
+print(square.area(), greet("x", "hi"), greet("x", "yo"))
+nums = [1]
+print(int(0), list(nums))
+'''
+CACHE_LIB = '''\
+class Shape:
+    def __init__(self, sides: int = 4) -> None:
+        self.sides = sides
+
+    @staticmethod
+    def unit() -> "Shape":
+        return Shape(4)
+
+    def area(self) -> int:
+        return self.sides
+
+
+def greet(name: str, greeting: str = "hi") -> str:
+    return greeting + name
+'''
+# where a project can say which cache directory mypy is to use: (label, files to write, extra arguments, extra environment)
+CACHE_CONFIGS = [
+    ("default", {}, [], {}),
+    ("mypy.ini", {"mypy.ini": "[mypy]\ncache_dir = .cache/mypy\n"}, [], {}),
+    ("pyproject-tool-mypy", {"pyproject.toml": "[tool.mypy]\ncache_dir = \".cache/mypy\"\n"}, [], {}),
+    ("setup.cfg", {"setup.cfg": "[mypy]\ncache_dir = build/mypy\n"}, [], {}),
+    ("mypy-argument", {}, ["--", "--cache-dir", ".cache/arg"], {}),
+    ("environment", {}, [], {"MYPY_CACHE_DIR": ".cache/env"}),
+    ("incremental-in-config", {"mypy.ini": "[mypy]\nincremental = True\ncache_dir = .cache/mypy\nsqlite_cache = True\n"}, [], {}),
+]
+
+
+def configured_cache(ctx: Ctx, td: str) -> None:
+    """A checked file that uses definitions of a module NOT on the command line, in a project that
+    configures mypy's cache directory: the report of every run of a history (cold, repeat, after a
+    comment-only edit of the imported module, repeat, imported module named too, cache removed) is
+    the same, and after an edit that changes the report it is what a fresh directory gives."""
+    def one(cfg):
+        label, extra_files, extra_args, extra_env = cfg
+        wd = Path(td) / f"cachecfg-{label}"
+        fresh = Path(td) / f"cachecfg-{label}-fresh"
+        for d in (wd, fresh):
+            d.mkdir()
+            (d / "app.py").write_text(CACHE_APP)
+            (d / "shapes.py").write_text(CACHE_LIB)
+            for n, t in extra_files.items():
+                (d / n).write_text(t)
+        runs = []
+
+        def go_(name, files, where=wd):
+            rc, out, err = L.cli([*files, "--quiet", "--enable-all", *extra_args], cwd=str(where), env_extra=extra_env)
+            runs.append((name, rc, "\n".join(l for l in out.splitlines() if l.startswith("app.py")), err[-300:]))
+
+        go_("cold", ["app.py"])
+        go_("repeat", ["app.py"])
+        st = (wd / "shapes.py").stat()
+        (wd / "shapes.py").write_text(CACHE_LIB + "# a comment\n")
+        os.utime(wd / "shapes.py", (st.st_atime + 5, st.st_mtime + 5))
+        go_("after-comment-edit", ["app.py"])
+        go_("repeat-2", ["app.py"])
+        go_("with-imported-module-named", ["app.py", "shapes.py"])
+        for c in (".mypy_cache", ".cache", "build"):
+            shutil.rmtree(wd / c, ignore_errors=True)
+        go_("cache-removed", ["app.py"])
+        go_("repeat-3", ["app.py"])
+        same = list(runs)
+        # an edit that changes the report: the default of greet() becomes "yo"
+        edited = CACHE_LIB.replace('greeting: str = "hi"', 'greeting: str = "yo"')
+        for d in (wd, fresh):
+            (d / "shapes.py").write_text(edited)
+        os.utime(wd / "shapes.py", (st.st_atime + 10, st.st_mtime + 10))
+        runs.clear()
+        go_("fresh-directory-after-edit", ["app.py"], fresh)
+        go_("after-semantic-edit", ["app.py"])
+        go_("repeat-4", ["app.py"])
+        return label, same, list(runs)
+
+    with ThreadPoolExecutor(max_workers=len(CACHE_CONFIGS)) as ex:
+        results = list(ex.map(one, CACHE_CONFIGS))
+    for label, same, after in results:
+        for group, tag in ((same, "history"), (after, "edit")):
+            ref = group[0]
+            for name, rc, out, err in group:
+                ctx.case(("cache-config", label, name), nontrivial=True)
+                ctx.count("configured-cache-runs")
+            if not ref[2].strip():
+                ctx.report(f"cache-config:{label}:no-report", f"the {label} project gives no diagnostics for app.py on its first run (status {ref[1]}): {ref[3]}", {"config": label})
+                continue
+            bad = next((r for r in group if (r[1], r[2]) != (ref[1], ref[2])), None)
+            if bad:
+                ctx.report(f"cache-config:{label}:{tag}", f"cache directory configured by {label}: run '{bad[0]}' prints a different report for app.py than run '{ref[0]}' (same files, same settings)",
+                           {"config": label, "app.py": CACHE_APP, "shapes.py": CACHE_LIB, "runs": [{"run": r[0], "status": r[1], "report": r[2]} for r in group],
+                            "steps": "cold, repeat, append a comment to shapes.py, repeat, name shapes.py too, remove the cache, repeat; then change greet()'s default and compare with a fresh directory"})
